@@ -219,9 +219,13 @@ CliOf(op, o, R) ==
 CliOps == {"RemoveGapSites", "RemoveCharacterSites", "RemoveMajorityCharacterSites", "RemoveGapSeqs", "RemoveCharacterSeqs",
            "ReverseComplement", "Sort", "Consensus", "DiffWithFirst", "ReplaceMatchChars", "Translate", "TranslateByReference",
            "Deduplicate", "Compress", "Mask", "MaskOccurences", "MaskUnique", "SubAlign", "Replace",
-           "ShuffleSequences", "Swap", "Recombine", "Mutate", "AddGaps", "Sample", "SampleSeqBag", "RandSubAlign"} \cup CliQueryOps
+           "ShuffleSequences", "Swap", "Recombine", "Mutate", "AddGaps", "Sample", "SampleSeqBag", "RandSubAlign",
+           "Rename", "RenameRegexp", "CleanNames", "TrimNames", "TrimNamesAuto", "AppendSeqIdentifier", "TrimSequences",
+           "Unalign", "Transpose", "RefCoordinates"} \cup CliQueryOps
+\* relations that need the part of the return record the command writes to a side file
+CliNeedsRet == {"Compress", "CleanNames", "TrimNames", "TrimNamesAuto"}
 
-CliCreators == {"Consensus", "SubAlign", "Sample", "SampleSeqBag", "RandSubAlign"}      \* the command prints the object the operation creates, not the receiver
+CliCreators == {"Consensus", "SubAlign", "Sample", "SampleSeqBag", "RandSubAlign", "Unalign", "Transpose"}      \* the command prints the object the operation creates, not the receiver
 
 \* the clauses of the properties that a return value meets only in case-folded form
 FoldedOK(op, a, exp, obs) ==
